@@ -139,15 +139,12 @@ func c15PolicyText(c *c15Case) (text string, writeFile bool) {
 		ensureCond()
 		copyGroups()
 	case "oversize-program":
-		g := spec.Group{Action: actErrno}
-		for i := 0; i < 14; i++ {
-			ce := spec.CondEntry{Name: "getuid"}
-			for k := 0; k < 80; k++ {
-				ce.Conds = append(ce.Conds, spec.Cond{Arg: uint32(k % 6), Op: "Equal", Val: uint64(i*100 + k)})
-			}
-			g.Conds = append(g.Conds, ce)
+		g := oversizeGroup()
+		g.Names = nil
+		// an action that differs from the default action: a compiler may drop groups that cannot change the verdict
+		if p.Default == g.Action {
+			g.Action = actLog
 		}
-		// make sure getuid is not listed unconditionally in that group
 		p.Groups = append(p.Groups, g)
 	}
 	text = cfgwriter.YAML(&p, c.Spelling)
@@ -449,11 +446,10 @@ func checkC15(raw json.RawMessage) (ev.Result, error) {
 			if begun != i+1 || done {
 				return res, fmt.Errorf("probe %d (%s) is answered kill_process, but the target reached probe %d (done=%v)", i, fmtEvent(e), begun-1, done)
 			}
+			// how the death is reported (the sandbox's own exit status and message, or - if it executes the target in
+			// place - its own death by SIGSYS) is not pinned down; it must not look like success
 			if run.exit == 0 && !run.signaled {
 				return res, fmt.Errorf("the target was killed by the policy, but the sandbox exited 0")
-			}
-			if !strings.Contains(run.stderr, "bad system call") && !strings.Contains(run.stderr, "signal") {
-				return res, fmt.Errorf("the target should have died of SIGSYS at probe %d; sandbox stderr: %q", i, clip(run.stderr, 300))
 			}
 			res.Classes = append(res.Classes, "target-killed-at-the-expected-probe")
 			res.NonTrivial = true
